@@ -680,6 +680,39 @@ theorem run_invariants {A} (enc : A → List Char) (lit : List Char → Option A
 def pOf (b : Name) (sel : List (List Char)) (sl : PSlice) (sub : Bool) (σ : Proxy.Sess) : Proxy.SeqProxy :=
   { baseurl := b, template := 0, selection := sel, slice := [sl], subChildren := sub, session := σ, opts := 0 }
 
+theorem rsplitDot_nodot (s : List Char) (h : ∀ c ∈ s, c ≠ '.') : rsplitDot s = none := by
+  cases hr : rsplitDot s with
+  | none => rfl
+  | some ab =>
+    obtain ⟨a, b⟩ := ab
+    obtain ⟨e, _⟩ := rsplitDot_some s a b hr
+    exact absurd rfl (h '.' (by rw [e]; simp))
+
+/-- on a proxy whose template is the sequence itself (`path = [id]`, no dot in `id`) the single-column branch of
+    `_projection` is not taken -/
+theorem projFull_seq (id : Name) (hid : ∀ c ∈ id, c ≠ '.') (keys vis : List Name) (p : Proxy.SeqProxy) :
+    projFull ⟨[id], keys, vis⟩ p = projText ⟨[id], keys, vis⟩ p := by
+  unfold projFull
+  by_cases h1 : p.subChildren = true ∧ vis ≠ []
+  · simp only [h1, and_self, if_true, ne_eq, not_false_eq_true]
+  · rw [if_neg h1]
+    by_cases h2 : keys = []
+    · rw [if_pos h2]
+      have hn : rsplitDot (proxyId ⟨[id], keys, vis⟩ p) = none := by
+        apply rsplitDot_nodot
+        intro c hc
+        unfold proxyId Proxy.seqIds at hc
+        cases hs : p.subChildren with
+        | false => simp only [hs, Bool.false_eq_true, if_false, joinWith, Proxy.joinDot] at hc; exact hid c hc
+        | true =>
+          have hv : vis = [] := by
+            by_cases hv : vis = []
+            · exact hv
+            · exact absurd ⟨hs, hv⟩ h1
+          simp [hs, hv, joinWith] at hc
+      rw [hn]
+    · rw [if_neg h2]
+
 /-- **the request on the wire**: the query text of an accumulated description is read by the server as
     the request made of the accumulated columns, record range and clauses -/
 theorem query_request {A} (lit : List Char → Option A) (b id : Name) (keys names : List Name) (σ : Proxy.Sess)
@@ -704,8 +737,8 @@ theorem query_request {A} (lit : List Char → Option A) (b id : Name) (keys nam
       simp [projText, proxyId, Proxy.seqIds, Proxy.joinDot, joinWith, pOf]
     obtain ⟨hpp, hch⟩ := parseProjection_whole id (hyperslabText [sl]) _ hid.2 hHc hH hp
     have hne : id ++ hyperslabText [sl] ≠ [] := by simp [hid.1]
-    show (parseCE (rstripChar '&' (projText ⟨[id], keys, vis⟩ (pOf b sel sl false σ) ++ '&' :: joinWith '&' sel))).bind _ = _
-    rw [hproj]
+    show (parseCE (rstripChar '&' (projFull ⟨[id], keys, vis⟩ (pOf b sel sl false σ) ++ '&' :: joinWith '&' sel))).bind _ = _
+    rw [projFull_seq id (fun c hc => (plain_ne (hid.2 c hc)).2.2.1), hproj]
     rw [parseCE_query _ _ hne (fun c hc => (projChar_ne (hch c hc)).1) (hasOp_false _ hch) hs1, hpp]
     simp only [Option.map_some, Option.bind_some]
     rw [toRequest_whole id names _ sel conds hs2 hslab, hhead]
@@ -725,8 +758,8 @@ theorem query_request {A} (lit : List Char → Option A) (b id : Name) (keys nam
       obtain ⟨hpp, hch⟩ := parseProjection_cols id (hyperslabText [sl]) k0 rest _ hid.2 hks hHc hH hp
       have hne : joinWith ',' ((id ++ hyperslabText [sl] ++ '.' :: k0) :: rest.map fun k => id ++ '.' :: k) ≠ [] := by
         cases rest <;> simp [joinWith, hid.1]
-      show (parseCE (rstripChar '&' (projText ⟨[id], keys, k0 :: rest⟩ (pOf b sel sl true σ) ++ '&' :: joinWith '&' sel))).bind _ = _
-      rw [hproj]
+      show (parseCE (rstripChar '&' (projFull ⟨[id], keys, k0 :: rest⟩ (pOf b sel sl true σ) ++ '&' :: joinWith '&' sel))).bind _ = _
+      rw [projFull_seq id (fun c hc => (plain_ne (hid.2 c hc)).2.2.1), hproj]
       rw [parseCE_query _ _ hne (fun c hc => (projChar_ne (hch c hc)).1) (hasOp_false _ hch) hs1, hpp]
       simp only [Option.map_some, Option.bind_some]
       rw [toRequest_cols id names k0 rest _ sel conds hs2 (fun k hk => hkeys k (hv3 k hk)) hv2 hslab, hhead]
